@@ -1,7 +1,47 @@
 import SigpyVerif.Model.Py
 import SigpyVerif.Model.Proto
 import SigpyVerif.Model.C01Proto
+import SigpyVerif.Gen.LinopAdjoint
 namespace SigpyVerif.Drv.C01
-/-- protocol handler for property C01 (tokens after the property id). -/
-def handle (toks : List String) : String := SigpyVerif.C01.Proto.handle toks
+open SigpyVerif SigpyVerif.Proto SigpyVerif.C01 SigpyVerif.C01.Proto
+
+/-- the two entry lists of the `ext` leaf of a 1-D single-channel convolution class: what the class denotes
+    and what the class returned by the *generated* `_adjoint_linop` table denotes (Props/C01Ext.lean
+    proves them adjoint) -/
+def convReply (c : Opaque GRat) : String :=
+  match convSem GRat.conj c, convSem GRat.conj (Gen.LinopAdjoint.adjOpaque c) with
+  | some s1, some s2 =>
+    match dense s1, dense s2 with
+    | some M, some MH =>
+      if s2.osh = s1.ish ∧ s2.ish = s1.osh then
+        s!"ok {fmtIntList s1.osh} | {fmtIntList s1.ish} | {fmtMat M} | {fmtMat MH} | -"
+      else "err adj-shape"
+    | _, _ => "err index"
+  | none, _ => "err build"
+  | _, _ => "err adj-build"
+
+/-- protocol handler for property C01 (tokens after the property id).
+    `findiff <shape> <normalised axes>`: the tree generated from the source of `FiniteDifference`
+    (Gen/LinopAdjoint.lean), answered like `mats`.
+    `convext <class> <data shape> <filter shape> <array> <mode> <strides|none>`: the imported convolution leaf. -/
+def handle (toks : List String) : String :=
+  match toks with
+  | ["findiff", sh, ax] =>
+    match parseIntList? sh, parseIntList? ax with
+    | some s, some a =>
+      match Gen.LinopAdjoint.finiteDifference (⟨-1, 0⟩ : GRat) s a with
+      | some e => matsReply e
+      | none => "err build"
+    | _, _ => "err bad-op"
+  | ["convext", kind, ds, fs, arr, mode, st] =>
+    match parseIntList? ds, parseIntList? fs, parseGList arr, optInts st with
+    | some d, some f, some a, some s =>
+      match kind with
+      | "convdata" => convReply (.convData d ⟨f, a⟩ mode s false)
+      | "convdataadj" => convReply (.convDataAdj d ⟨f, a⟩ mode s false)
+      | "convfilt" => convReply (.convFilt f ⟨d, a⟩ mode s false)
+      | "convfiltadj" => convReply (.convFiltAdj f ⟨d, a⟩ mode s false)
+      | _ => "err bad-op"
+    | _, _, _, _ => "err bad-op"
+  | _ => SigpyVerif.C01.Proto.handle toks
 end SigpyVerif.Drv.C01
